@@ -191,6 +191,8 @@ def rule_p2(ctx, F):
     if fn:
         ctx.on_all_paths("P3", "ts_lexer_set_input:clears-chunk", fn, [pt for pt, n in find(fn, "ts_lexer__clear_chunk(self)")], "a new input discards the cached chunk")
         ctx.on_all_paths("P3", "ts_lexer_set_input:stores-input", fn, [pt for pt, n in find(fn, "self->input = input")], "the new input callback is installed")
+        ctx.on_all_paths("P3", "ts_lexer_set_input:re-seeks", fn, [pt for pt, n in find(fn, "ts_lexer_goto(self, self->current_position)")],
+                         "a new input re-seeks the lexer (ts_lexer_goto recomputes the included-range index, which doubles as the EOF flag, and the look-ahead)")
     fn = ctx.need_fn(F, "ts_lexer__clear_chunk", "P3")
     if fn:
         for f in ("chunk", "chunk_size", "chunk_start"):
